@@ -541,10 +541,11 @@ func (e *Engine) runDefers(st *State, th *Thread, fr *Frame) {
 		fr.pc++
 		return
 	}
+	// peek: the entry is popped only once the call has been committed (an
+	// intrinsic may raise a fork/yield and the instruction is then re-executed)
 	d := fr.defers[len(fr.defers)-1]
-	fr.defers = fr.defers[:len(fr.defers)-1]
 	fr.inDefers = true
-	e.invoke(st, th, fr, d.call, d.fn, d.args, nil)
+	e.invokeC(st, th, fr, d.call, d.fn, d.args, func() { fr.defers = fr.defers[:len(fr.defers)-1] })
 }
 
 // ---- binary operations ----
